@@ -69,10 +69,34 @@ def first_diff(a, b):
         return "trees differ"
 
 
+def leaves(x):
+    """every byte-string leaf of a projected tree, with multiplicity"""
+    if isinstance(x, (bytes, bytearray)):
+        return [bytes(x)]
+    if isinstance(x, str):
+        return [x.encode("utf-8")]
+    if isinstance(x, dict):
+        return [l for k in sorted(x, key=repr) for l in leaves(x[k])]
+    if isinstance(x, (list, tuple)):
+        return [l for y in x for l in leaves(y)]
+    return []
+
+
 def matcher(f, v):
     m = f.get("match", {})
     if m.get("kind") == "tag-after-optional-positional":
-        return tag_after_optional_positional(bytes.fromhex(v["input_hex"]), m["commands"])
+        t = bytes.fromhex(v["input_hex"])
+        if not tag_after_optional_positional(t, m["commands"]):
+            return False
+        # KF-C03-1 is a matter of ORDER (the re-assigned value is recorded after the tag): everything written is still in the result.
+        # A value that is missing or changed is another defect, whatever the shape of the script
+        try:
+            p = Parser()
+            if p.parse(t) is not True:
+                return True
+            return sorted(leaves(oracle_generic.parse(t))) == sorted(leaves(oracle_generic.project_result(p.result, commands)))
+        except Exception:  # noqa
+            return True
     return False
 
 
@@ -88,6 +112,17 @@ def run(ctx):
         bad = check(t, table)
         if bad:
             viol.append({"input_hex": t.hex(), "input": t.decode("latin-1"), "what": "result tree differs from the script as written: " + bad})
+    # directed: commands with an optional positional argument in front of a required one (the imap4flags variable name), a tag that
+    # takes a parameter written BETWEEN the two, alone and under not / anyof (accepted — see KF-C01-2 — so it must be represented)
+    REQ = b'require ["imap4flags", "relational"]; '
+    for hf in (b'hasflag "MyVar" :comparator "i;octet" "\\\\Seen"', b'hasflag "MyVar" :count "ge" "2"', b'hasflag ["V1","V2"] :is ["a","b"]',
+               b'hasflag "MyVar" :comparator "i;ascii-casemap" :contains ["x", "y"]', b'hasflag :is "OnlyOne"', b'hasflag "V" "F"'):
+        for shape in (b"if %s { keep; }", b"if not %s { keep; }", b"if anyof (true, %s) { stop; }", b"if allof (%s, %s) { discard; }"):
+            t = REQ + (shape % ((hf,) * shape.count(b"%s")))
+            bad = check(t, table)
+            nacc += 1
+            if bad:
+                viol.append({"input_hex": t.hex(), "input": t.decode("latin-1"), "what": "result tree differs from the script as written: " + bad})
     # the same oracle through a Parser object that has just REJECTED a damaged version of the script (an author fixing a
     # script and parsing again): cut inside lists, test lists, blocks and strings, or one token removed
     r = rng("c03-reuse")
